@@ -151,7 +151,14 @@ func VH06a_sub() {
 		case 0: // subscribe
 			r := pick()
 			t := verif.Bytes("topic", verif.Choice("tlen", TL+1))
-			verif.Assert(r.opt().SetOption(mangos.OptionSubscribe, t) == nil, lab+"/subscribe-ok")
+			{
+				// the caller's buffer is the caller's: it is overwritten as soon as the call has returned
+				buf := append([]byte{}, t...)
+				verif.Assert(r.opt().SetOption(mangos.OptionSubscribe, buf) == nil, lab+"/subscribe-ok")
+				for i := range buf {
+					buf[i] ^= 0xA5
+				}
+			}
 			dup := false
 			for _, s := range r.subs {
 				if len(s) == len(t) && verif.BytesEq(s, t) { // forks
@@ -498,10 +505,13 @@ func VH06f_many_subscriptions() {
 		r = &subref{name: "ctx", c: c}
 	}
 	held := make([]bool, N)
+	scratch := make([]byte, 1) // one buffer re-used for every topic, as a caller building topics in place does
 	for i := 0; i < N; i++ {
-		verif.Assert(r.opt().SetOption(mangos.OptionSubscribe, []byte{byte('a' + i)}) == nil, lab+"/subscribe")
+		scratch[0] = byte('a' + i)
+		verif.Assert(r.opt().SetOption(mangos.OptionSubscribe, scratch) == nil, lab+"/subscribe")
 		held[i] = true
 	}
+	scratch[0] = 0xFF
 	verif.Assert(r.opt().SetOption(mangos.OptionSubscribe, []byte{'b'}) == nil, lab+"/subscribe-again")
 	x := verif.Choice("first", N)
 	y := verif.Choice("second", N)
